@@ -1,5 +1,6 @@
 import SedpackProofs.ParMap
 import SedpackProofs.ParMapTerm
+import SedpackProofs.ParMapSum
 /-!
 # C15 — The Rust reader equals the Python reader for every thread count and timing
 
@@ -8,8 +9,9 @@ workers with private FIFO channels; one label per channel operation, so every re
 the reader threads is a label sequence.  An item is named by its coordinates `(round, slot)` in the
 input order (`k ↦ (k / m, k % m)`); `enumTo m q now` is the input order up to `(q, now)`.
 Quantifiers: every `m ≥ 1`, every number of items `≥ m` (`nq ≥ 1` full rounds, `nr < m` more),
-every interleaving, every drop position.  The correspondence for this property is output-level
-(the Rust threads cannot be stepped from Python): partial.
+every interleaving, every drop position.  Correspondence: the order of channel operations recorded under real thread
+interleavings by the `SEDPACK_VERIF` hook of `parallel_map.rs` is replayed on the model label by label (`pmaptrace`),
+besides the output-level comparison with the cargo harness and with the Python reader.
 -/
 namespace Sedpack.PMap
 
@@ -139,5 +141,73 @@ def c23 : Cfg := { m := 2, nq := 1, nr := 1 }
 example : Good c23 := ⟨fun _ => by decide, Or.inl (by decide)⟩
 example : (accepts c23 (init c23) [.wRecv 1, .wSend 1, .wRecv 0, .wSend 0, .cNext, .cNext, .wRecv 0, .wSend 0, .wRecv 1, .cNext, .wRecv 0, .cNext]).map
     (fun s => (s.out, s.ended)) = some ([(0, 0), (0, 1), (1, 0)], true) := by decide
+
+/-- at the end of a full pass the consumer stands exactly behind the last item -/
+theorem ended_position (c : Cfg) (g : Good c) (s : St) (h : Reach c s) (hm : 0 < c.m) (he : s.ended = true) (hd : s.dropped = false) :
+    s.q = c.nq ∧ s.now = c.nr := by
+  have hi := inv_reach c g.nq g.nr s h
+  have hnow := hi.now hm
+  have hex : s.exited s.now = true := by
+    rcases ended_inv c s h he with h0 | h1
+    · omega
+    · exact h1
+  have hw := hi.w s.now hnow
+  have hfin : s.fin s.now = true := by
+    rcases hw.ex hex with ⟨hf, _, _⟩ | hdd
+    · exact hf
+    · rw [hd] at hdd; cases hdd
+  have hq : s.posOut s.now = s.q := by have := hw.out; simpa using this
+  have hge : cnt c s.now ≤ s.q := by have := (hw.fin hd).mp hfin; omega
+  -- nobody has returned more than it was given
+  have hle : ∀ w, w < c.m → s.posOut w ≤ cnt c w := by
+    intro w hwm
+    have hw' := hi.w w hwm
+    have := hw'.pipe; have := hw'.o_w; have := hw'.w_i; have := hw'.i_p; omega
+  have hqle := hle s.now hnow
+  rw [hq] at hqle
+  have hnr : c.nr < c.m := by rcases g.nr with h1 | h1 <;> omega
+  -- workers before `now` have returned q+1 items
+  have hbefore : ∀ w, w < s.now → w < c.nr := by
+    intro w hwn
+    have hw' := hi.w w (by omega)
+    have h1 := hw'.out
+    simp only [hwn, if_true] at h1
+    have h2 := hle w (by omega)
+    unfold cnt at h2 hge hqle
+    split at h2
+    · assumption
+    · split at hge <;> split at hqle <;> omega
+  unfold cnt at hge hqle
+  by_cases hlt : s.now < c.nr
+  · -- then q = nq + 1 and everybody before … but worker `now` itself would need another round: impossible unless now = nr
+    simp only [hlt, if_true] at hge hqle
+    -- the worker just after the last partial-round worker: nr - 1 ≥ now, take w = nr - 1 … use worker `now`'s successor bound
+    exfalso
+    -- worker c.nr - 1 ≥ now has returned q = nq + 1 items only if it is < nr: fine; look at worker c.nr (if < m) or wrap
+    by_cases hnm : c.nr < c.m
+    · have hw2 := hi.w c.nr hnm
+      have h1 := hw2.out
+      have h2 := hle c.nr hnm
+      unfold cnt at h2
+      simp only [Nat.lt_irrefl, if_false] at h2
+      have : ¬ c.nr < s.now := by omega
+      simp only [this, if_false] at h1
+      omega
+    · omega
+  · simp only [hlt, if_false] at hge hqle
+    refine ⟨by omega, ?_⟩
+    -- now ≥ nr, and every worker before now is < nr, so now ≤ nr
+    rcases Nat.lt_or_ge c.nr s.now with h1 | h1
+    · have := hbefore c.nr h1; omega
+    · omega
+
+/-- **A full pass of the Rust reader returns the input, in order, nothing else** — for every thread count and every
+interleaving of the worker threads. -/
+theorem C15_full_pass_is_the_input (c : Cfg) (g : Good c) (s : St) (h : Reach c s) (hm : 0 < c.m) (he : s.ended = true)
+    (hd : s.dropped = false) : s.out.map (idx c.m) = List.range (c.nq * c.m + c.nr) := by
+  obtain ⟨hq, hn⟩ := ended_position c g s h hm he hd
+  have hnr : c.nr ≤ c.m := by rcases g.nr with h1 | h1 <;> omega
+  rw [C15_output_in_input_order c g s h, hq, hn, enumTo_idx c.m c.nq c.nr hnr]
+
 
 end Sedpack.PMap
